@@ -1,11 +1,4 @@
 // ---------- TRUSTED stand-ins specific to U05 ----------
-#[derive(Clone, Copy)]
-pub struct DeferredBeneficiaryReward(pub U256);
-impl DeferredBeneficiaryReward {
-    pub uninterp spec fn spec_apply(self, a: Option<AccountInfo>) -> AccountInfo;
-    #[verifier::external_body]
-    pub fn apply_to(self, account: Option<AccountInfo>) -> (r: AccountInfo) ensures r == self.spec_apply(account) { unimplemented!() }
-}
 /// committed-state view: what basic_ref answers for the committed prefix + ghost commit log
 #[verifier::external_body]
 #[verifier::reject_recursive_types(DB)]
